@@ -6,7 +6,7 @@ from hypothesis import strategies as st
 
 from vlib import evo, gen
 from vlib.runner import fail, hyp_run
-from props.c07_evolvent_bijection import make
+from props.c07_evolvent_bijection import make, vias
 
 LEVEL = "exploration"
 RULE = ("Hypothesis-generated: N in 1..5, N*m<=50, arbitrary (mostly asymmetric) boxes; (forward) x from the C07 "
@@ -68,7 +68,7 @@ def fwd_cases(draw):
         lo, hi = draw(evo.evo_boxes(n, m))
     nm = n * m
     kind = draw(st.sampled_from(["index", "index", "double", "one"]))
-    case = {"n": n, "m": m, "lower": lo, "upper": hi, "kind": kind}
+    case = {"n": n, "m": m, "lower": lo, "upper": hi, "kind": kind, "via": draw(vias)}
     if kind == "index":
         case["i"] = draw(evo.indices(nm))
         case["offs"] = [draw(evo.offsets(nm)) for _ in range(2)]
@@ -87,8 +87,9 @@ def fwd_body(case):
         xs = [case["x"]]
     else:
         xs = [1.0]
-    ev = make(n, m, lo, hi)
-    classes = ["N=%d" % n, "kind=" + case["kind"]]
+    via = case.get("via", "ctor")
+    ev = make(n, m, lo, hi, via)
+    classes = ["N=%d" % n, "kind=" + case["kind"], "via=" + via]
     nontrivial = False
     for x in xs:
         i = evo.index_of(x, nm)
@@ -103,7 +104,7 @@ def fwd_body(case):
             if abs(back - x) > 8 * 2.0 ** -52 * (max(abs(lo[0]), abs(hi[0])) / w + 1):
                 fail("N=1: inverse(image(%r)) = %r on [%r, %r]" % (x, back, lo[0], hi[0]))
             continue
-        evu = make(n, m)
+        evu = make(n, m, None, None, via)
         bu = evu.GetInverseImage(evu.GetImage(x))
         if bu != want:
             fail("N=%d, m=%d (unit cube): inverse(image(%r)) = %r, expected floor(x*T)/T = %r" % (n, m, x, bu, want))
@@ -138,7 +139,7 @@ def bwd_cases(draw):
         lo = [float(draw(st.integers(-8, 4))) for _ in range(n)]
         hi = [a + float(draw(st.integers(1, 9))) for a in lo]
         y = [draw(st.integers(int(a), int(b))) for a, b in zip(lo, hi)]
-        return {"n": n, "m": m, "lower": lo, "upper": hi, "form": form, "y": y, "ykind": "integers"}
+        return {"n": n, "m": m, "lower": lo, "upper": hi, "form": form, "y": y, "ykind": "integers", "via": draw(vias)}
     ykind = draw(st.sampled_from(["uniform", "boundary", "face", "centre"]))
     y = []
     for a, b in zip(lo, hi):
@@ -154,21 +155,25 @@ def bwd_cases(draw):
             j = draw(st.integers(0, (1 << m) - 1))
             y.append(a + w * (j + 0.5) / float(1 << m))
     y = [min(max(v, a), b) for v, a, b in zip(y, lo, hi)]
-    return {"n": n, "m": m, "lower": lo, "upper": hi, "form": form, "y": y, "ykind": ykind}
+    return {"n": n, "m": m, "lower": lo, "upper": hi, "form": form, "y": y, "ykind": ykind, "via": draw(vias)}
 
 
 def bwd_body(case):
     n, m, lo, hi, y = case["n"], case["m"], case["lower"], case["upper"], case["y"]
     nm = n * m
     T = 1 << nm
-    ev = make(n, m, lo, hi)
+    via = case.get("via", "ctor")
+    # via == "ctor": one new object per query (history independence is C17's subject); otherwise ONE object,
+    # configured through SetBounds or driven through a query history, answers all three queries
+    one = make(n, m, lo, hi, via) if via != "ctor" else None
+    ev = one or make(n, m, lo, hi)
     arg = np.array(y, dtype=np.double) if case["form"] == "array" else list(y)
     x = ev.GetInverseImage(arg)
-    pre = make(n, m, lo, hi).GetPreimages(np.array(y, dtype=np.double) if case["form"] == "array" else list(y))
+    pre = (one or make(n, m, lo, hi)).GetPreimages(np.array(y, dtype=np.double) if case["form"] == "array" else list(y))
     if x != pre:
         fail("GetPreimages(%r) = %r differs from GetInverseImage = %r (N=%d, m=%d, box [%r, %r])" %
              (y, pre, x, n, m, lo, hi))
-    classes = ["N=%d" % n, "form=" + case["form"], "y=" + case["ykind"]]
+    classes = ["N=%d" % n, "form=" + case["form"], "y=" + case["ykind"], "via=" + via]
     if n == 1:
         w = hi[0] - lo[0]
         xt = (float(y[0]) - lo[0]) / w
@@ -177,7 +182,7 @@ def bwd_body(case):
         return False, classes
     if not (0.0 <= x < 1.0) or (x * T) != int(x * T):
         fail("N=%d, m=%d: inverse(%r) = %r is not a multiple of 2^-%d in [0,1)" % (n, m, y, x, nm))
-    img = make(n, m, lo, hi).GetImage(x)
+    img = (one or make(n, m, lo, hi)).GetImage(x)
     allow = evo.cell_allowance(lo, hi, m)
     for k in range(n):
         half = (hi[k] - lo[k]) / float(1 << (m + 1))
